@@ -222,6 +222,14 @@ func corpus(prop string) []NamedScenario {
 		s.W.Servers[0].Docs = append(s.W.Servers[0].Docs, DocSpec{s.Alice.Followers,
 			mustJSON(J{"@context": asCtx, "type": "Collection", "id": s.Alice.Followers, "items": []string{s.Bob.ID, s.Dave}})})
 	})
+	in("forwarding-fragment", d, func(s *Std) J {
+		// the reply names a part of an owned document; object and tag carry IRIs with fragment and query
+		return s.act("Create", J{"to": []string{s.Alice.Followers}, "object": J{"type": "Note", "id": s.RNote, "attributedTo": s.Dave, "content": "reply",
+			"inReplyTo": s.Note1 + "#section-2", "tag": []interface{}{"https://" + hostR + "/t/x?y=1#z", J{"type": "Mention", "href": s.Alice.ID + "#main"}}}})
+	}, func(s *Std) {
+		s.W.Servers[0].Docs = append(s.W.Servers[0].Docs, DocSpec{s.Alice.Followers,
+			mustJSON(J{"@context": asCtx, "type": "Collection", "id": s.Alice.Followers, "items": []string{s.Bob.ID, s.Dave}})})
+	})
 	in("forwarding-deep", d, func(s *Std) J {
 		return s.act("Announce", J{"to": s.Col1, "object": "https://" + hostR + "/n/chain1"})
 	}, func(s *Std) {
